@@ -2,9 +2,9 @@ package props
 
 import (
 	"fmt"
-	"time"
 	"math/rand/v2"
 	"net/netip"
+	"time"
 
 	"verifharness/sim"
 
